@@ -69,7 +69,7 @@ CHECKS = {
    "trusts the harness's tree model and diff renderer; shapes of open known findings are excluded by construction and counted",
    "property-based testing: workspace generator with by-construction model T_0..T_n; oracle = model comparison after running the binary"),
  "C13": ("exploration",
-   "generated failing quilt workspaces; the set of *.rej files and, through the harness's own unified-diff reader, their hunks (of all failing entries for the file, in patch order) are compared with the generator's knowledge of which hunks cannot apply; longer stale rejects of an earlier push lie at the same paths; each reject must also be accepted by the tool's parser and name its file",
+   "generated failing quilt workspaces; the set of *.rej files and, through the harness's own unified-diff reader, their hunks (of all failing entries for the file, in patch order) are compared with the generator's knowledge of which hunks cannot apply; longer stale rejects of an earlier push lie at the same paths; each reject must also be accepted by the tool's parser and name its file; file and directory names include ones that are not UTF-8 (Latin-1 bytes)",
    "trusts the generator's failure injection (sentinel lines, missing files, create-over-existing, delete mismatch)",
    "property-based testing: failure-injecting workspace generator; oracle = expected reject set and contents by construction"),
  "C20": ("exploration",
@@ -77,7 +77,7 @@ CHECKS = {
    "only complete successes at F constrain the F' run",
    "property-based testing: metamorphic oracle over generated hunks/series and pairs of fuzz limits"),
  "C01": ("exploration",
-   "by-construction oracle over generated file pairs: the harness builds A, derives B by an edit script, renders the unified diff in a random accepted header dialect and requires libpatch (in-process) and the real binary (1 in 13 cases, both directions) to produce exactly B resp. A with offset 0 / fuzz 0; a sampled search over a very large input space, not a proof",
+   "by-construction oracle over generated file pairs: the harness builds A, derives B by an edit script, renders the unified diff in a random accepted header dialect and requires libpatch (in-process) and the real binary (1 in 13 cases, both directions) to produce exactly B resp. A with offset 0 / fuzz 0 (incl. lines of 64 KiB and more and file names that are not UTF-8); a sampled search over a very large input space, not a proof",
    "trusts the harness's diff renderer (self-checked by an independent exact applier in the regression inputs) and that /dev/null is the spelling of an absent side",
    "property-based testing: generated (A,B) pairs x context width x merge policy x header dialect; round-trip oracle by construction, in-process and through the binary"),
  "C11": ("exploration",
